@@ -56,6 +56,9 @@ var srcTargets = []srcTarget{
 	{Group: "Validate", Recv: "Export", Name: "IsChunkedResponse", Only: "V2"},
 	{Group: "Validate", Recv: "Export", Name: "IsStreamResponse", Only: "V2"},
 	{Group: "Validate", Recv: "Export", Name: "Validate", Only: "V2"},
+	{Group: "Validate", Recv: "Subject", Name: "IsContainedIn", Only: "V2"},
+	{Group: "Validate", Name: "isContainedIn", Only: "V2"},
+	{Group: "Validate", Recv: "Exports", Name: "Validate", Only: "V2"},
 	{Group: "ValidateClaims", Recv: "ClaimsData", Name: "Validate", Only: "V2"},
 	{Group: "ValidateClaims", Recv: "Subject", Name: "Validate", Only: "V2"},
 	{Group: "ValidateClaims", Recv: "Activation", Name: "IsService", Only: "V2"},
@@ -162,6 +165,7 @@ type tr struct {
 	logVar     *types.Var              // ... then this pseudo-variable holds the log of those effects
 	setFields  map[string]bool         // observation names of fields assigned so far
 	foreignObs bool                    // it also observes an abstract parameter
+	dropNil    bool                    // the function's only result is an error that is nil on every path: dropped
 }
 
 func (t *tr) fail(n ast.Node, f string, a ...interface{}) {
@@ -301,6 +305,13 @@ func (t *tr) zero(n ast.Node, ty types.Type) string {
 	}
 	if strings.HasPrefix(t.coqType(n, ty), "(list ") {
 		return "[]"
+	}
+	if st, ok := ty.Underlying().(*types.Struct); ok && isPlainStruct(ty) {
+		var zs []string
+		for i := 0; i < st.NumFields(); i++ {
+			zs = append(zs, t.zero(n, st.Field(i).Type()))
+		}
+		return "(" + strings.Join(zs, ", ") + ")"
 	}
 	t.fail(n, "no zero value")
 	return ""
@@ -521,7 +532,8 @@ func (t *tr) expr(e ast.Expr) string {
 			return "(go_idx " + t.expr(x.X) + " " + t.expr(x.Index) + ")"
 		}
 		if t.isMap(x.X) {
-			return "(fst (go_mget " + t.mapExpr(x.X) + " " + t.expr(x.Index) + "))"
+			get, _, _ := t.mapOps(x.X)
+			return "(fst (" + get + " " + t.mapExpr(x.X) + " " + t.expr(x.Index) + "))"
 		}
 		if t.isStr(x.X) && t.isInt(x.Index) {
 			return "(go_sbyte " + t.expr(x.X) + " " + t.expr(x.Index) + ")"
@@ -782,10 +794,21 @@ func isAbstractParam(ty types.Type) bool {
 
 // mapExpr: a map of strings to integers (an association list in the translation)
 func (t *tr) mapExpr(e ast.Expr) string {
-	if t.coqType(e, t.info.TypeOf(e)) != "(list (string * Z))" {
+	if !strings.HasPrefix(t.coqType(e, t.info.TypeOf(e)), "(list (string * ") {
 		t.fail(e, "map type %s", t.info.TypeOf(e))
 	}
 	return t.expr(e)
+}
+
+// mapOps: the get / set vocabulary for a map: integers have their own (go_mget / go_mset); any other value type uses
+// the polymorphic pair, whose get takes the zero value to answer for a missing key
+func (t *tr) mapOps(e ast.Expr) (get, set, vty string) {
+	m := t.info.TypeOf(e).Underlying().(*types.Map)
+	vty = t.coqType(e, m.Elem())
+	if vty == "Z" {
+		return "go_mget", "go_mset", vty
+	}
+	return "go_pget " + t.zero(e, m.Elem()), "go_pset", vty
 }
 
 func (t *tr) sepArg(e ast.Expr) string {
@@ -820,7 +843,7 @@ func (t *tr) call(x *ast.CallExpr) string {
 				if t.isStr(x.Args[0]) || t.coqType(x.Args[0], t.info.TypeOf(x.Args[0])) == "string" {
 					return "(go_slen " + t.expr(x.Args[0]) + ")"
 				}
-				if t.isList(x.Args[0]) {
+				if t.isList(x.Args[0]) || t.isMap(x.Args[0]) {
 					return "(go_llen " + t.expr(x.Args[0]) + ")"
 				}
 			case "make":
@@ -1227,7 +1250,7 @@ func (t *tr) block0(stmts []ast.Stmt, c sctx, ind string) string {
 	case *ast.BlockStmt:
 		return t.block(append(append([]ast.Stmt{}, x.List...), rest...), c, ind)
 	case *ast.ReturnStmt:
-		if len(x.Results) == 0 {
+		if len(x.Results) == 0 || t.dropNil {
 			return c.ret("tt")
 		}
 		if len(x.Results) == 1 && len(t.resTys) > 1 {
@@ -1313,6 +1336,29 @@ func (t *tr) block0(stmts []ast.Stmt, c sctx, ind string) string {
 		}
 		return out + t.block(rest, c, ind)
 	case *ast.AssignStmt:
+		// x.F = e for a local variable x holding a plain struct (a tuple): the tuple with that field replaced
+		if len(x.Lhs) == 1 && len(x.Rhs) == 1 && x.Tok == token.ASSIGN {
+			if sel, ok := x.Lhs[0].(*ast.SelectorExpr); ok {
+				if lid, ok := sel.X.(*ast.Ident); ok && t.names[t.info.Uses[lid]] != "" && isPlainStruct(t.info.TypeOf(lid)) {
+					st := t.info.TypeOf(lid).Underlying().(*types.Struct)
+					name := t.names[t.info.Uses[lid]]
+					var pat, val []string
+					for i := 0; i < st.NumFields(); i++ {
+						f := fmt.Sprintf("go_f%d", i)
+						pat = append(pat, f)
+						if st.Field(i).Name() == sel.Sel.Name {
+							if named, ok := t.info.TypeOf(lid).(*types.Named); ok && named.Obj().Name() == "ValidationIssue" && sel.Sel.Name == "Description" {
+								f = "\"\"" // (the text of an issue is not kept)
+							} else {
+								f = t.expr(x.Rhs[0])
+							}
+						}
+						val = append(val, f)
+					}
+					return "let '(" + strings.Join(pat, ", ") + ") := " + name + " in" + nl + "let " + name + " := (" + strings.Join(val, ", ") + ") in" + nl + t.block(rest, c, ind)
+				}
+			}
+		}
 		if len(x.Lhs) == 2 && len(x.Rhs) == 1 {
 			// _, err := pkg.F(args): only whether it failed is kept - an unknown function of the arguments
 			if call, isCall := x.Rhs[0].(*ast.CallExpr); isCall {
@@ -1366,7 +1412,8 @@ func (t *tr) block0(stmts []ast.Stmt, c sctx, ind string) string {
 			}
 			// v, ok := m[k]
 			if ie, ok := x.Rhs[0].(*ast.IndexExpr); ok && t.isMap(ie.X) && (x.Tok == token.DEFINE || x.Tok == token.ASSIGN) {
-				val := "(go_mget " + t.mapExpr(ie.X) + " " + t.expr(ie.Index) + ")"
+				get, _, _ := t.mapOps(ie.X)
+				val := "(" + get + " " + t.mapExpr(ie.X) + " " + t.expr(ie.Index) + ")"
 				a, b := t.lhsName(x.Lhs[0], x.Tok == token.DEFINE), t.lhsName(x.Lhs[1], x.Tok == token.DEFINE)
 				return "let '(" + a + ", " + b + ") := " + val + " in" + nl + t.block(rest, c, ind)
 			}
@@ -1387,8 +1434,11 @@ func (t *tr) block0(stmts []ast.Stmt, c sctx, ind string) string {
 					t.fail(x, "store into a map inside a range over a map")
 				}
 				m := t.mapExpr(ie.X)
-				t.markMutated(ie.X)
-				return "let " + m + " := (go_mset " + m + " " + t.expr(ie.Index) + " " + t.expr(x.Rhs[0]) + ") in" + nl + t.block(rest, c, ind)
+				if lid, isId := ie.X.(*ast.Ident); !(isId && t.names[t.info.Uses[lid]] != "" && (t.recv == nil || t.info.Uses[lid] != t.recv)) {
+					t.markMutated(ie.X) // (a map held in a local variable is simply rebound)
+				}
+				_, set, _ := t.mapOps(ie.X)
+				return "let " + m + " := (" + set + " " + m + " " + t.expr(ie.Index) + " " + t.expr(x.Rhs[0]) + ") in" + nl + t.block(rest, c, ind)
 			}
 		}
 		// p.F = e for an abstract receiver or parameter p: an effect, logged
@@ -1558,6 +1608,14 @@ func (t *tr) block0(stmts []ast.Stmt, c sctx, ind string) string {
 			if f, ok := call.Fun.(*ast.SelectorExpr); ok && t.vr != nil {
 				vrn := t.names[t.vr]
 				if id, ok := f.X.(*ast.Ident); ok && t.info.Uses[id] == t.vr {
+					if f.Sel.Name == "Add" && len(call.Args) == 1 {
+						// vr.Add(&issue) for an issue held in a local variable: its flags decide what it is
+						if u, ok := call.Args[0].(*ast.UnaryExpr); ok && u.Op == token.AND {
+							if lid, ok := u.X.(*ast.Ident); ok && t.names[t.info.Uses[lid]] != "" && t.coqType(lid, t.info.TypeOf(lid)) == "(string * bool * bool)" {
+								return "let " + vrn + " := (" + vrn + " ++ [go_issue_of " + t.names[t.info.Uses[lid]] + "])%list in" + nl + t.block(rest, c, ind)
+							}
+						}
+					}
 					kind := map[string]string{"AddError": "GoError", "AddWarning": "GoWarning", "AddTimeCheck": "GoTimeCheck"}[f.Sel.Name]
 					if kind == "" {
 						t.fail(x, "call of %s on the validation results", f.Sel.Name)
@@ -1866,8 +1924,9 @@ func (t *tr) mapRange(x *ast.RangeStmt, rest []ast.Stmt, c sctx, ind string) str
 	body := t.block(x.Body.List, lc, in2)
 	t.mapKey = t.mapKey[:len(t.mapKey)-1]
 	after := t.block(rest, c, ind+"  ")
-	return "match go_range (A:=(string * Z)) (S:=" + sty + ") (R:=" + t.retTy + ")" + nl +
-		"    (fun (_ : Z) (go_e : string * Z) (go_st : " + sty + ") =>" + "\n" + in2 + "let '(" + key + ", " + val + ") := go_e in " + unpack(pat, "go_st", len(vs)) + body + ")" + nl +
+	_, _, vty := t.mapOps(x.X)
+	return "match go_range (A:=(string * " + vty + ")) (S:=" + sty + ") (R:=" + t.retTy + ")" + nl +
+		"    (fun (_ : Z) (go_e : string * " + vty + ") (go_st : " + sty + ") =>" + "\n" + in2 + "let '(" + key + ", " + val + ") := go_e in " + unpack(pat, "go_st", len(vs)) + body + ")" + nl +
 		"    0%Z " + m + " " + pat + " with" + nl +
 		"| inr go_r => " + c.emit("go_r") + nl +
 		"| inl go_st => " + unpack(pat, "go_st", len(vs)) + after + nl + "end"
@@ -1996,6 +2055,23 @@ func translateFunc(pkg *packages.Package, fd *ast.FuncDecl, coqName string, know
 			t.wrap = func(v string) string { return "(" + recvName + ", " + v + ")" }
 		}
 	}
+	if t.vr != nil && t.resTy == "(option string)" {
+		// an error result that is nil on every path says nothing: dropped
+		allNil := true
+		ast.Inspect(fd.Body, func(m ast.Node) bool {
+			if r, ok := m.(*ast.ReturnStmt); ok {
+				if len(r.Results) != 1 {
+					allNil = false
+				} else if id, ok := r.Results[0].(*ast.Ident); !ok || id.Name != "nil" {
+					allNil = false
+				}
+			}
+			return true
+		})
+		if allNil {
+			t.resTy, t.resTys, t.dropNil = "unit", nil, true
+		}
+	}
 	if t.vr != nil {
 		if t.mut || t.resTy != "unit" {
 			t.fail(fd, "a function that reports into validation results and also returns a value or updates its receiver")
@@ -2104,7 +2180,11 @@ func isPlainStruct(ty types.Type) bool {
 	if !ok || st.NumFields() < 2 || st.NumFields() > 3 {
 		return false
 	}
-	if types.NewMethodSet(types.NewPointer(ty)).Len() > 0 {
+	isIssue := false
+	if named, ok := ty.(*types.Named); ok && named.Obj().Name() == "ValidationIssue" {
+		isIssue = true // (an issue is its text and its two flags; its one method only returns the text)
+	}
+	if !isIssue && types.NewMethodSet(types.NewPointer(ty)).Len() > 0 {
 		return false // a type with behaviour of its own is an abstract value
 	}
 	for i := 0; i < st.NumFields(); i++ {
